@@ -103,6 +103,7 @@ EXPECTED_THEOREMS = [
     'Py65.Proofs.MonCompose.models_at', 'Py65.Proofs.MonCompose.callOK_of_rejected',
     'Py65.Proofs.MonCompose.onecmd_sim_composed', 'Py65.Proofs.MonCompose.onecmd_rejected_composed',
     'Py65.Props.C20h.rejected_unchanged_composed', 'Py65.Props.C20h.never_raises_composed',
+    'Py65.Props.C20h.returns_or_nofuel_composed', 'Py65.Props.C20h.returns_composed',
     'Py65.Props.C20h.onecmd_agrees_composed', 'Py65.Props.C20h.oth_models_composed',
     'Py65.Props.C20h.ext_honest_composed', 'Py65.Props.C20h.refusals_composed',
     # tie by regeneration, unit `asmc`: do_assemble, _interactive_assemble, do_help, do_version, do_cd, do_pwd and
